@@ -1484,3 +1484,267 @@ impl Check for C08 {
         Box::pin(exec_c08(script))
     }
 }
+
+// ---------------------------------------------------------------------------
+// C19: issued sequence ids (and config history ids) are unique and increasing across restarts and nodes
+
+pub struct C19;
+
+#[derive(Clone, Debug)]
+pub struct IdRec {
+    pub node: u64,
+    /// true: GetDirectRange (fresh range from raft); false: GetNextId (node-local cached range)
+    pub range: bool,
+    pub key: u8,
+    pub ids: Vec<u64>,
+    pub invoke: u64,
+    pub ret: u64,
+}
+
+pub async fn exec_c19(script: Value) -> ExecResult {
+    use std::cell::RefCell;
+    use std::rc::Rc as LRc;
+    let id = "C19";
+    let seed = script["seed"].as_u64().unwrap_or(1);
+    let cfg: NCfg = serde_json::from_value(script["cfg"].clone()).unwrap_or_default();
+    let steps: Vec<WStep> = match serde_json::from_value(script["steps"].clone()) {
+        Ok(s) => s,
+        Err(e) => return ExecResult { violation: Some(Violation::new("harness.script", e.to_string())), info: RunInfo::default() },
+    };
+    tokio::fs::set_cfg(disk_cfg(&cfg));
+    tokio::fs::with_disk(|d| {
+        d.journal_on = false;
+        d.log_ops = false;
+    });
+    net_reset(seed, cfg.net.clone());
+    install_spin_tap();
+    let root = run_root(seed);
+    let recs: LRc<RefCell<Vec<IdRec>>> = LRc::new(RefCell::new(vec![]));
+    let mut findings = vec![];
+    let mut digest = 0u64;
+    let nodes = cfg.nodes.max(1);
+    let r: VResult<()> = async {
+        if nodes == 1 {
+            let n = start_node(&root, 1, true, None, &cfg.node).await.map_err(|e| Violation::new("harness.start", e.to_string()))?;
+            vensure!(wait_leader(&n, 20_000).await.is_some(), &format!("{}.no_leader", id), "single node did not become leader");
+            advance(16_000).await;
+        } else {
+            cluster_up(&root, &cfg, id).await?;
+            // an early leader change, so that the leader replicates to voters (see C06's recorded findings)
+            if let Some(l) = majority_leader() {
+                let all: Vec<u64> = (1..=nodes).collect();
+                isolate(l, &all);
+                advance(8_000).await;
+                heal_all();
+                advance(5_000).await;
+            }
+        }
+        // background client that only writes while async-raft's needs-snapshot loop runs
+        if let Some(n1) = node(1) {
+            actix_rt::spawn(async move {
+                let mut bm = WModel::default();
+                bm.uniq = 5_000_000;
+                loop {
+                    wait_spin().await;
+                    if let Some(l) = majority_leader().and_then(node).or_else(|| Some(n1.clone())) {
+                        let st = WStep::CfgSet { node: l.id, t: 2, g: 1, d: 4, size: 5, same: false, typ: 0, desc: 0 };
+                        let _ = do_step(&l, &st, &mut bm, 10_000).await;
+                    }
+                    tokio::task::yield_now().await;
+                }
+            });
+        }
+        let mut m = WModel::default();
+        let mut handles = vec![];
+        for (i, st) in steps.iter().enumerate() {
+            sim::event(&format!("step {} {}", i, serde_json::to_string(st).unwrap_or_default()));
+            match st {
+                WStep::SeqNext { node: nid, key, .. } | WStep::SeqRange { node: nid, key, .. } => {
+                    let target = match node(*nid) {
+                        Some(t) => t,
+                        None => continue,
+                    };
+                    let st2 = st.clone();
+                    let recs2 = recs.clone();
+                    let key = *key % 3;
+                    let nid = *nid;
+                    let is_range = matches!(st, WStep::SeqRange { .. });
+                    let invoke = {
+                        sim::event("invoke seq");
+                        sim::ev_seq()
+                    };
+                    handles.push(actix_rt::spawn(async move {
+                        let mut mm = WModel::default();
+                        let out = do_step(&target, &st2, &mut mm, 20_000).await;
+                        sim::event("return seq");
+                        if let OpOutcome::Ids(ids) = out {
+                            recs2.borrow_mut().push(IdRec { node: nid, range: is_range, key, ids, invoke, ret: sim::ev_seq() });
+                        }
+                    }));
+                    // several requests in flight per node
+                    if i % 3 == 0 {
+                        advance(1).await;
+                    }
+                }
+                WStep::Restart { node: nid } | WStep::KillRestart { node: nid } => {
+                    // only followers are restarted in the 3-node variant (leader death hits recorded async-raft defects, see C06)
+                    if nodes > 1 && majority_leader() == Some(*nid) {
+                        continue;
+                    }
+                    if node(*nid).is_none() {
+                        continue;
+                    }
+                    if matches!(st, WStep::Restart { .. }) {
+                        stop_node(*nid).await;
+                    } else {
+                        kill_node(*nid).await;
+                        sim::count("fault.kill", 1);
+                    }
+                    let n = start_node(&root, *nid, *nid == 1, if *nid == 1 { None } else { Some(1) }, &cfg.node).await.map_err(|e| Violation::new(&format!("{}.restart_failed", id), e.to_string()))?;
+                    advance(12_000).await;
+                    let _ = wait_leader(&n, 20_000).await;
+                    sim::count("probe.node_restarted", 1);
+                }
+                WStep::Advance { ms } => advance(*ms).await,
+                other => {
+                    if let Some(target) = node(step_node(other)) {
+                        let _ = do_step(&target, other, &mut m, 20_000).await;
+                    }
+                }
+            }
+        }
+        for h in handles {
+            let _ = h.await;
+        }
+        settle().await;
+        advance(3_000).await;
+        let recs = recs.borrow().clone();
+        // uniqueness per key over everything any node ever returned
+        for key in 0..3u8 {
+            let mut seen: BTreeMap<u64, (u64, u64)> = BTreeMap::new();
+            for r in recs.iter().filter(|r| r.key == key) {
+                for idv in &r.ids {
+                    if let Some(prev) = seen.insert(*idv, (r.node, r.invoke)) {
+                        let msg = format!("sequence seq{}: id {} was handed out twice (node {} at event {}, node {} at event {})", key, idv, prev.0, prev.1, r.node, r.invoke);
+                        if sim::counter("disk.lost_on_crash") > 0 {
+                            // signature of the recorded defect: raft log appends are acknowledged before their file write
+                            // has completed; a kill -9 in that window loses the acknowledged NextRange entry
+                            if findings.is_empty() {
+                                findings.push(Violation::new(&format!("{}.duplicate_after_unflushed_log_write_lost", id), format!("{}; the run contains a kill -9 that discarded {} issued-but-uncompleted file writes: the range entry had been acknowledged before its log write completed", msg, sim::counter("disk.lost_on_crash"))));
+                            }
+                            return Ok(());
+                        }
+                        if sim::counter("fault.kill") > 0 {
+                            // signature of the recorded async-raft defect (see C06): after a kill -9 the entries between the
+                            // stored last-applied index and the new leader's first blank entry are never applied, so a
+                            // committed NextRange entry is in the log but the counter does not reflect it
+                            let mut next_range_entries = 0;
+                            for n in live_nodes() {
+                                let mm = metrics(&n);
+                                if let Ok(es) = n.app.raft_store.get_log_entries(1, mm.last_log_index + 1).await {
+                                    let c = es.iter().filter(|e| crate::rig_l::payload_json(&e.payload).contains(&format!("\"NextRange\":[\"seq{}\"", key))).count();
+                                    next_range_entries = next_range_entries.max(c);
+                                }
+                            }
+                            if next_range_entries >= 2 {
+                                if findings.is_empty() {
+                                    findings.push(Violation::new(&format!("{}.duplicate_after_skipped_apply", id), format!("{}; the log holds {} committed NextRange entries for this sequence, i.e. the first one was not applied after the kill -9 restart (entries behind the stored last-applied index are skipped by the new leader's initial blank entry)", msg, next_range_entries)));
+                                }
+                                return Ok(());
+                            }
+                        }
+                        vfail!(&format!("{}.duplicate_id", id), "{}", msg);
+                    }
+                }
+            }
+            // per node: a request that returned before another was invoked got smaller ids
+            for a in recs.iter().filter(|r| r.key == key) {
+                // (ids of the node-local cache and directly drawn ranges come from different ranges by design:
+                // compared within one kind only)
+                for b in recs.iter().filter(|r| r.key == key && r.node == a.node && r.range == a.range) {
+                    if a.ret < b.invoke {
+                        if let (Some(ma), Some(mb)) = (a.ids.iter().max(), b.ids.iter().min()) {
+                            vensure!(ma < mb, &format!("{}.went_backwards", id), "sequence seq{} on node {}: a request that returned at event {} got ids up to {}, a later request (invoked at {}) got ids from {}", key, a.node, a.ret, ma, b.invoke, mb);
+                        }
+                    }
+                }
+            }
+        }
+        sim::count("ids.issued", recs.iter().map(|r| r.ids.len() as u64).sum());
+        // config history ids: never the same id on two different entries
+        for n in live_nodes() {
+            let o = observe(&n, "fin").await.map_err(|e| Violation::new(&format!("{}.observe_failed", id), e.to_string()))?;
+            let mut by_id: BTreeMap<i64, (String, String)> = BTreeMap::new();
+            for (k, h) in &o.hist {
+                let mut prev: Option<i64> = None;
+                for (hid, content) in h {
+                    if let Some((k2, c2)) = by_id.get(hid) {
+                        if k2 != k || c2 != content {
+                            vfail!(&format!("{}.history_id_reused", id), "node {}: history id {} is stamped on two different entries: {} / {} and {} / {}", n.id, hid, k2, trunc(c2), k, trunc(content));
+                        } else {
+                            // same entry twice: signature of the recorded defect "replay applies entries already in the snapshot" (see C01)
+                            if findings.is_empty() {
+                                findings.push(Violation::new(&format!("{}.history_entry_twice_after_replay", id), format!("node {}: history entry (id {}, key {}) appears twice: entries newer than the snapshot header index were already contained in the snapshot and are applied again by the start-up replay", n.id, hid, k)));
+                            }
+                        }
+                    } else {
+                        by_id.insert(*hid, (k.clone(), content.clone()));
+                        if let Some(p) = prev {
+                            vensure!(p > *hid, &format!("{}.history_order", id), "node {}: key {} history ids (newest first) not decreasing: {} then {}", n.id, k, p, hid);
+                        }
+                    }
+                    prev = Some(*hid);
+                }
+            }
+            digest ^= obs_digest(&o);
+        }
+        Ok(())
+    }
+    .await;
+    let nrec = recs.borrow().len();
+    let info = RunInfo { digest, nontrivial: nrec >= 4, info: json!({"requests": nrec}), findings };
+    for n in live_nodes() {
+        kill_node(n.id).await;
+    }
+    ExecResult { violation: r.err(), info }
+}
+
+impl Check for C19 {
+    fn id(&self) -> &'static str {
+        "C19"
+    }
+    fn generate(&self, seed: u64, _tier: Tier) -> Value {
+        let mut rng = Rng::derive(seed, "C19.gen", 0);
+        let mut cfg = NCfg::default();
+        cfg.nodes = if rng.chance(0.4) { 3 } else { 1 };
+        cfg.node.snapshot_log_size = if cfg.nodes == 1 { rng.range(5, 40) } else { *rng.pick(&[15u64, 10_000]) };
+        if cfg.nodes == 1 && rng.chance(0.5) {
+            cfg.disk_p_delay = *rng.pick(&[0.05, 0.3]);
+            cfg.disk_max_delay_us = *rng.pick(&[200u64, 5_000, 50_000]);
+        }
+        let n = rng.range(10, 70);
+        let mut steps = vec![];
+        for _ in 0..n {
+            let node = rng.range(1, cfg.nodes);
+            let r = rng.below(100);
+            let st = if r < 45 {
+                WStep::SeqNext { node, key: rng.below(3) as u8, n: rng.range(1, 6) as u8 }
+            } else if r < 60 {
+                WStep::SeqRange { node, key: rng.below(3) as u8, len: *rng.pick(&[1u8, 2, 50, 99, 100, 101, 120]) }
+            } else if r < 82 {
+                WStep::CfgSet { node, t: rng.below(2) as u8, g: 0, d: rng.below(3) as u8, size: 10, same: rng.chance(0.1), typ: 0, desc: 0 }
+            } else if r < 88 {
+                WStep::KillRestart { node }
+            } else if r < 94 {
+                WStep::Restart { node }
+            } else {
+                WStep::Advance { ms: *rng.pick(&[50u64, 600, 3000]) }
+            };
+            steps.push(st);
+        }
+        json!({"check": "C19", "seed": seed, "cfg": cfg, "steps": steps})
+    }
+    fn execute(&self, script: Value) -> LocalFut<ExecResult> {
+        Box::pin(exec_c19(script))
+    }
+}
